@@ -1,0 +1,355 @@
+//! Verification shim. Only compiled with `--cfg arc_swap_verif`.
+//!
+//! Drop-in replacements for the `core::sync::atomic` types the crate uses. Every operation is
+//! first offered to a function installed at run time ([`install`]); if none is installed (or it
+//! declines), the real operation is performed, so with the cfg on but no runtime the crate behaves
+//! exactly as usual. The real atomic always holds the modification-order-latest value.
+#![allow(missing_docs, clippy::missing_safety_doc, clippy::type_complexity)]
+use core::panic::Location;
+use core::sync::atomic as real;
+pub use core::sync::atomic::Ordering;
+
+#[derive(Clone, Copy, Debug, PartialEq, Eq, Hash)]
+pub enum Op {
+    Load,
+    Store,
+    Swap,
+    Cas,
+    CasWeak,
+    FetchAdd,
+    FetchSub,
+    FetchAnd,
+    FetchOr,
+    FetchXor,
+    FetchNand,
+    FetchMax,
+    FetchMin,
+    /// Exclusive access (`get_mut`, `into_inner`): the runtime forgets the location.
+    GetMut,
+    /// `fence(ordering)`; `addr` is 0.
+    Fence,
+}
+
+#[derive(Clone, Copy, Debug)]
+pub struct Access {
+    pub addr: usize,
+    pub op: Op,
+    /// Current (mo-latest) value in the real atomic.
+    pub cur: usize,
+    /// store/swap value, fetch operand, or CAS expected
+    pub a: usize,
+    /// CAS new
+    pub b: usize,
+    pub success: Ordering,
+    pub failure: Ordering,
+    pub site: &'static Location<'static>,
+}
+
+/// `None` => perform the real operation (not under the runtime).
+/// `Some((value, ok, latest))`: `value` = loaded / previous value; `ok` = CAS success; `latest` =
+/// the new mo-latest value the shim writes into the real atomic after a write.
+pub type Hook = fn(&Access) -> Option<(usize, bool, usize)>;
+
+static HOOK: real::AtomicUsize = real::AtomicUsize::new(0);
+
+pub fn install(h: Hook) {
+    HOOK.store(h as usize, Ordering::SeqCst);
+}
+
+#[inline]
+fn hook() -> Option<Hook> {
+    let h = HOOK.load(Ordering::Relaxed);
+    if h == 0 {
+        None
+    } else {
+        Some(unsafe { core::mem::transmute::<usize, Hook>(h) })
+    }
+}
+
+#[track_caller]
+pub fn fence(o: Ordering) {
+    let handled = match hook() {
+        None => None,
+        Some(h) => h(&Access {
+            addr: 0,
+            op: Op::Fence,
+            cur: 0,
+            a: 0,
+            b: 0,
+            success: o,
+            failure: o,
+            site: Location::caller(),
+        }),
+    };
+    if handled.is_none() {
+        real::fence(o);
+    }
+}
+
+macro_rules! call {
+    ($self:ident, $op:expr, $a:expr, $b:expr, $s:expr, $f:expr) => {{
+        match hook() {
+            None => None,
+            Some(h) => h(&Access {
+                addr: &$self.0 as *const _ as usize,
+                op: $op,
+                cur: $self.0.load(Ordering::Relaxed) as usize,
+                a: $a as usize,
+                b: $b as usize,
+                success: $s,
+                failure: $f,
+                site: Location::caller(),
+            }),
+        }
+    }};
+}
+
+macro_rules! rmw {
+    ($name:ident, $op:expr) => {
+        #[track_caller]
+        pub fn $name(&self, v: usize, o: Ordering) -> usize {
+            match call!(self, $op, v, 0usize, o, o) {
+                None => self.0.$name(v, o),
+                Some((old, _, n)) => {
+                    self.0.store(n, Ordering::Relaxed);
+                    old
+                }
+            }
+        }
+    };
+}
+
+#[derive(Debug, Default)]
+#[repr(transparent)]
+pub struct AtomicUsize(real::AtomicUsize);
+
+impl AtomicUsize {
+    pub const fn new(v: usize) -> Self {
+        Self(real::AtomicUsize::new(v))
+    }
+    #[track_caller]
+    pub fn load(&self, o: Ordering) -> usize {
+        match call!(self, Op::Load, 0usize, 0usize, o, o) {
+            None => self.0.load(o),
+            Some((v, _, _)) => v,
+        }
+    }
+    #[track_caller]
+    pub fn store(&self, v: usize, o: Ordering) {
+        match call!(self, Op::Store, v, 0usize, o, o) {
+            None => self.0.store(v, o),
+            Some((_, _, n)) => self.0.store(n, Ordering::Relaxed),
+        }
+    }
+    rmw!(swap, Op::Swap);
+    rmw!(fetch_add, Op::FetchAdd);
+    rmw!(fetch_sub, Op::FetchSub);
+    rmw!(fetch_and, Op::FetchAnd);
+    rmw!(fetch_or, Op::FetchOr);
+    rmw!(fetch_xor, Op::FetchXor);
+    rmw!(fetch_nand, Op::FetchNand);
+    rmw!(fetch_max, Op::FetchMax);
+    rmw!(fetch_min, Op::FetchMin);
+    #[track_caller]
+    pub fn compare_exchange(
+        &self,
+        c: usize,
+        n: usize,
+        s: Ordering,
+        f: Ordering,
+    ) -> Result<usize, usize> {
+        match call!(self, Op::Cas, c, n, s, f) {
+            None => self.0.compare_exchange(c, n, s, f),
+            Some((old, true, nv)) => {
+                self.0.store(nv, Ordering::Relaxed);
+                Ok(old)
+            }
+            Some((old, false, _)) => Err(old),
+        }
+    }
+    #[track_caller]
+    pub fn compare_exchange_weak(
+        &self,
+        c: usize,
+        n: usize,
+        s: Ordering,
+        f: Ordering,
+    ) -> Result<usize, usize> {
+        match call!(self, Op::CasWeak, c, n, s, f) {
+            None => self.0.compare_exchange_weak(c, n, s, f),
+            Some((old, true, nv)) => {
+                self.0.store(nv, Ordering::Relaxed);
+                Ok(old)
+            }
+            Some((old, false, _)) => Err(old),
+        }
+    }
+    #[track_caller]
+    pub fn fetch_update<F: FnMut(usize) -> Option<usize>>(
+        &self,
+        set: Ordering,
+        fetch: Ordering,
+        mut f: F,
+    ) -> Result<usize, usize> {
+        let mut prev = self.load(fetch);
+        while let Some(next) = f(prev) {
+            match self.compare_exchange_weak(prev, next, set, fetch) {
+                x @ Ok(_) => return x,
+                Err(next_prev) => prev = next_prev,
+            }
+        }
+        Err(prev)
+    }
+    #[track_caller]
+    pub fn get_mut(&mut self) -> &mut usize {
+        let _ = call!(
+            self,
+            Op::GetMut,
+            0usize,
+            0usize,
+            Ordering::Relaxed,
+            Ordering::Relaxed
+        );
+        self.0.get_mut()
+    }
+    #[track_caller]
+    pub fn into_inner(self) -> usize {
+        let _ = call!(
+            self,
+            Op::GetMut,
+            0usize,
+            0usize,
+            Ordering::Relaxed,
+            Ordering::Relaxed
+        );
+        self.0.into_inner()
+    }
+}
+
+impl From<usize> for AtomicUsize {
+    fn from(v: usize) -> Self {
+        Self::new(v)
+    }
+}
+
+#[derive(Debug)]
+#[repr(transparent)]
+pub struct AtomicPtr<T>(real::AtomicPtr<T>);
+
+impl<T> Default for AtomicPtr<T> {
+    fn default() -> Self {
+        Self::new(core::ptr::null_mut())
+    }
+}
+
+impl<T> From<*mut T> for AtomicPtr<T> {
+    fn from(v: *mut T) -> Self {
+        Self::new(v)
+    }
+}
+
+impl<T> AtomicPtr<T> {
+    pub const fn new(v: *mut T) -> Self {
+        Self(real::AtomicPtr::new(v))
+    }
+    #[track_caller]
+    pub fn load(&self, o: Ordering) -> *mut T {
+        match call!(self, Op::Load, 0usize, 0usize, o, o) {
+            None => self.0.load(o),
+            Some((v, _, _)) => v as *mut T,
+        }
+    }
+    #[track_caller]
+    pub fn store(&self, v: *mut T, o: Ordering) {
+        match call!(self, Op::Store, v, 0usize, o, o) {
+            None => self.0.store(v, o),
+            Some((_, _, n)) => self.0.store(n as *mut T, Ordering::Relaxed),
+        }
+    }
+    #[track_caller]
+    pub fn swap(&self, v: *mut T, o: Ordering) -> *mut T {
+        match call!(self, Op::Swap, v, 0usize, o, o) {
+            None => self.0.swap(v, o),
+            Some((old, _, n)) => {
+                self.0.store(n as *mut T, Ordering::Relaxed);
+                old as *mut T
+            }
+        }
+    }
+    #[track_caller]
+    pub fn compare_exchange(
+        &self,
+        c: *mut T,
+        n: *mut T,
+        s: Ordering,
+        f: Ordering,
+    ) -> Result<*mut T, *mut T> {
+        match call!(self, Op::Cas, c, n, s, f) {
+            None => self.0.compare_exchange(c, n, s, f),
+            Some((old, true, nv)) => {
+                self.0.store(nv as *mut T, Ordering::Relaxed);
+                Ok(old as *mut T)
+            }
+            Some((old, false, _)) => Err(old as *mut T),
+        }
+    }
+    #[track_caller]
+    pub fn compare_exchange_weak(
+        &self,
+        c: *mut T,
+        n: *mut T,
+        s: Ordering,
+        f: Ordering,
+    ) -> Result<*mut T, *mut T> {
+        match call!(self, Op::CasWeak, c, n, s, f) {
+            None => self.0.compare_exchange_weak(c, n, s, f),
+            Some((old, true, nv)) => {
+                self.0.store(nv as *mut T, Ordering::Relaxed);
+                Ok(old as *mut T)
+            }
+            Some((old, false, _)) => Err(old as *mut T),
+        }
+    }
+    #[track_caller]
+    pub fn fetch_update<F: FnMut(*mut T) -> Option<*mut T>>(
+        &self,
+        set: Ordering,
+        fetch: Ordering,
+        mut f: F,
+    ) -> Result<*mut T, *mut T> {
+        let mut prev = self.load(fetch);
+        while let Some(next) = f(prev) {
+            match self.compare_exchange_weak(prev, next, set, fetch) {
+                x @ Ok(_) => return x,
+                Err(next_prev) => prev = next_prev,
+            }
+        }
+        Err(prev)
+    }
+    #[track_caller]
+    pub fn get_mut(&mut self) -> &mut *mut T {
+        let _ = call!(
+            self,
+            Op::GetMut,
+            0usize,
+            0usize,
+            Ordering::Relaxed,
+            Ordering::Relaxed
+        );
+        self.0.get_mut()
+    }
+    #[track_caller]
+    pub fn into_inner(self) -> *mut T {
+        let _ = call!(
+            self,
+            Op::GetMut,
+            0usize,
+            0usize,
+            Ordering::Relaxed,
+            Ordering::Relaxed
+        );
+        self.0.into_inner()
+    }
+}
+
+pub use crate::debt::verif_list::*;
